@@ -21,6 +21,19 @@ def bases(tier, seed):
             out.append((d, dict(t, base="star")))
             d, t = families.tree(rng, (1, 2), algo, nw, leaves_per_router=2, root_eps=1, roles=["ms", "s"])
             out.append((d, dict(t, base="tree")))
+            if not nw:
+                # an axi network whose protocols carry (optional, differing or partly missing) `type` labels: the
+                # width agreement of an axi network is between ALL its protocols whatever their labels
+                for labels in ((("narrow", "wide"), (None, "wide")) if tier == "quick" else
+                               (("narrow", "wide"), (None, "wide"), ("wide", None), ("narrow", "narrow"))):
+                    d, t = families.star(rng, 3, algo, nw, roles=["ms", "s", "m"], shapes=[None, None, None], nranges=[1, 1, 1],
+                                         router_first=False)
+                    for p, ty in zip(d["protocols"], labels):
+                        if ty is None:
+                            p.pop("type", None)
+                        else:
+                            p["type"] = ty
+                    out.append((d, dict(t, base="star-typed-axi-" + "-".join(str(x) for x in labels))))
         d, t = families.mesh(rng, 2, 2, algo, nw, sides=("W",), force_dir=True)
         out.append((d, dict(t, base="mesh")))
         d, t = families.mesh(rng, 2, 2, algo, nw, partial=[(0, 0), (1, 1)], force_dir=True, cluster_role="ms")
